@@ -7,7 +7,8 @@ use crate::refmodel::field::*;
 use serde_json::{json, Value};
 use swiftness_stark::types::StarkProof;
 
-const EDIT_NAMES: [&str; 6] = ["random", "plus_one", "minus_one", "zero", "copy_sibling", "bit_flip"];
+const EDIT_NAMES: [&str; 9] = ["random", "plus_one", "minus_one", "zero", "copy_sibling", "bit_flip", "plus_2_32", "plus_2_64", "plus_2_128"];
+const N_KINDS: u8 = EDIT_NAMES.len() as u8;
 
 /// Build the edit `which` for a slot; None when it does not apply or would not change the value.
 pub fn slot_edit(img: &Value, s: &Slot, which: u8, seed: u64) -> Option<Edit> {
@@ -132,10 +133,10 @@ pub fn run(ctx: &Ctx) -> Report {
             let few = s.ptr.starts_with("/config") || (s.ptr.starts_with("/public_input") && !s.ptr.starts_with("/public_input/main_page") && !s.ptr.starts_with("/public_input/dynamic_params")) || s.ptr.starts_with("/unsent_commitment/proof_of_work");
             if ctx.quick() && !few {
                 // every position once with a PRF-chosen edit kind, + 5% with all the others
-                let k0 = (prf_u64(seed, 0) % 6) as u8;
+                let k0 = (prf_u64(seed, 0) % N_KINDS as u64) as u8;
                 let mut done = false;
-                for d in 0..6 {
-                    if let Some(e) = slot_edit(&img, s, (k0 + d) % 6, seed) {
+                for d in 0..N_KINDS {
+                    if let Some(e) = slot_edit(&img, s, (k0 + d) % N_KINDS, seed) {
                         jobs.push((ii, e));
                         done = true;
                         break;
@@ -143,7 +144,7 @@ pub fn run(ctx: &Ctx) -> Report {
                 }
                 let _ = done;
                 if prf_u64(seed, 1) % 20 == 0 {
-                    for k in 0..6u8 {
+                    for k in 0..N_KINDS {
                         if k != k0 {
                             if let Some(e) = slot_edit(&img, s, k, seed ^ 0x55) {
                                 jobs.push((ii, e));
@@ -152,7 +153,7 @@ pub fn run(ctx: &Ctx) -> Report {
                     }
                 }
             } else {
-                for k in 0..6u8 {
+                for k in 0..N_KINDS {
                     if let Some(e) = slot_edit(&img, s, k, seed) {
                         jobs.push((ii, e));
                     }
@@ -204,4 +205,4 @@ pub fn replay(ctx: &Ctx, v: &Value) -> Result<Outcome, String> {
     Ok(judge(it, &e))
 }
 
-pub const RULE: &str = "for every proof accepted under the build (quick: one per layout family, preferring masked-hash proofs, plus the fixture; thorough: all), every scalar slot of the proof's serde image (config numbers incl. nested table/vector/FRI configs, public-input scalars, dynamic parameters, segments, padding, main-page cells, commitments, OODS values, FRI commitments, last-layer coefficients, nonce, decommitted cells, authentication nodes, FRI leaves and FRI authentication nodes) is replaced (PRF-random / +1 / -1 / 0 / copy of a sibling / single bit flip; quick: configuration and public-input scalars with all kinds, every other position once + 5% with all kinds; thorough: all kinds) and every vector has one element deleted (first, last, PRF interior); appending is not generated. Bases also include the accepted proofs kept under corpus/accepted. Oracle: mutant != original structurally => verify must not return Ok, neither at the base proof's own security level nor at a lower caller-chosen level (20) (positive control: the unmodified proof is accepted). Non-trivial = distinct (proof, path, edit) with mutant != original; class histogram by slot group x edit kind";
+pub const RULE: &str = "for every proof accepted under the build (quick: one per layout family, preferring masked-hash proofs, plus the fixture; thorough: all), every scalar slot of the proof's serde image (config numbers incl. nested table/vector/FRI configs, public-input scalars, dynamic parameters, segments, padding, main-page cells, commitments, OODS values, FRI commitments, last-layer coefficients, nonce, decommitted cells, authentication nodes, FRI leaves and FRI authentication nodes) is replaced (PRF-random / +1 / -1 / 0 / copy of a sibling / single bit flip / +2^32 / +2^64 / +2^128 (aliases under a narrowing cast); quick: configuration and public-input scalars with all kinds, every other position once + 5% with all kinds; thorough: all kinds) and every vector has one element deleted (first, last, PRF interior); appending is not generated. Bases also include the accepted proofs kept under corpus/accepted. Oracle: mutant != original structurally => verify must not return Ok, neither at the base proof's own security level nor at a lower caller-chosen level (20) (positive control: the unmodified proof is accepted). Non-trivial = distinct (proof, path, edit) with mutant != original; class histogram by slot group x edit kind";
